@@ -36,8 +36,14 @@ def scenarios(rng, tier):
             s.frame(0, discover(mac(1), tos=rng.choice([0, 1]), gen=rng.randrange(65536)))
     return [(s.text(), {})]
 def project(blk, name, meta):
+    # the decoded property SET of the Hello (the order of properties is not prescribed)
     if blk.fault: return ('fault',)
-    if blk.op.startswith('frame'): return tuple(blk.acts)
+    if blk.op.startswith('frame'):
+        r = []
+        for _, _, o in blk.sends():
+            h = hello_fields(o)
+            r.append(tuple(sorted(h['props'])) if h and h['props'] is not None else o)
+        return tuple(r)
     return ()
 def be(b): return int.from_bytes(b, 'big')
 def oracle(name, ib, mb, meta):
